@@ -79,6 +79,11 @@ def main(run, tier):
     printobl.print_obligations(run, g, ('pretty',))
     from . import sepobl
     sepobl.sep_obligations(run, g, ('pretty',))
+    # the per-production obligations speak about one print; "printing again reproduces the output byte for byte" also needs that a
+    # print leaves nothing behind in the printer, whatever happened to earlier prints (ownership obligations of C14, imported)
+    from .c14 import frame_obligations
+    import contracts.frames as cf
+    frame_obligations(run, cf.C14, 'C14')
     importlib.import_module('calmjs.parse.parsers.es5').Parser()
     progs = roundtrip.programs(g, tier)
     args = [(p, INDENTS if tier == 'thorough' else [INDENTS[k % 3], INDENTS[(k + 1) % 3]]) for k, p in enumerate(progs)]
@@ -110,6 +115,30 @@ def main(run, tier):
                 break
     run.bounded_check('rt.pretty', 'one program per production and depth-2 nesting x token-text variations + hand-written programs, '
                       'x indentation strings (quick: 2 of 3 per program)', n, ok)
+    # fixpoint through ONE printer object whose earlier prints were abandoned or interleaved
+    es5 = importlib.import_module('calmjs.parse.parsers.es5')
+    unp = importlib.import_module('calmjs.parse.unparsers.es5')
+    m = 0
+    for src in ('function f(a) { if (a) { return { b: [1, 2] }; } while (a) { a--; } }', 'switch (x) { case 1: { y; } default: z; }'):
+        for ind in ('  ', '\t'):
+            m += 1
+            tree = es5.parse(src)
+            want = ''.join(fr.text for fr in unp.pretty_printer(indent_str=ind)(tree))
+            printer = unp.pretty_printer(indent_str=ind)
+            it = printer(tree)
+            for _ in range(14):                          # past the first `{`: the indentation level is above zero
+                next(it)
+            it.close()                                   # abandoned part-way
+            a_, b_ = printer(tree), printer(es5.parse(want))
+            inter = []
+            for x, y in zip(a_, b_):                     # two prints of the same printer, consumed side by side
+                inter.append(x.text)
+            again = ''.join(fr.text for fr in printer(es5.parse(want)))
+            if again != want:
+                why = 'printing the re-parsed output through a printer whose earlier prints were abandoned gives %r, not %r' % (again[:80], want[:80])
+                run.failed('rt.pretty.reuse', 'E4/bounded', '%s | %r' % (src[:30], ind), dict(source=src, indent=ind, problem=why), observed=why,
+                           required='the pretty form is a fixpoint of parse-then-print, whatever the printer object did before', replayed=True)
+    run.bounded_check('rt.pretty.reuse', 'abandoned and interleaved prints through one printer object, then the fixpoint', m)
     run.trust('parser determinism; C20 for the layout; C03/C04 for "any conforming ES5 parser"')
     run.assume('"any conforming ES5 parser": no second parser exists in the sandbox (stated limit)',
                'token fusion / line-break safety of the pretty layout is bounded only')
